@@ -508,6 +508,9 @@ func opensSocket(final enc.Name) bool {
 	if (a.Flags == nil) != (a.Mask == nil) {
 		return false
 	}
+	if a.Mtu != nil && *a.Mtu < 64 {
+		return false // refused as too small before any transport is made
+	}
 	if a.FacePersistency != nil && *a.FacePersistency != uint64(face.PersistencyPersistent) && *a.FacePersistency != uint64(face.PersistencyPermanent) {
 		return false
 	}
